@@ -56,7 +56,7 @@ func hpackxCase(c *hx.Ctx, maxStr int, blocks [][]byte, how string) {
 		for _, b := range blocks {
 			var fs []hpack.HeaderField
 			var err error
-			_, panicked := hx.Safe(func() { fs, err = d.DecodeFull(append([]byte(nil), b...)) })
+			_, panicked := hx.Safe(func() { fs, err = d.DecodeFull(hx.Exact(b)) })
 			if panicked {
 				outs = append(outs, "panic")
 				return
